@@ -92,15 +92,28 @@ def build_callable(program: dict, pool: Pool, keep: list) -> Any:
     return fn
 
 
+_SPEC_DEFAULTS = {"Block": {"act": "gelu"}, "UBlock": {"flip": False}, "EqxBlock": {"slope": 0.1}}
+_KW_DEFAULTS = {"fn_scale": {"factor": 2.0}, "KwBlock": {"scale": 1.0}}
+
+
+def _norm_spec(spec: dict) -> str:
+    d = dict(_SPEC_DEFAULTS.get(spec.get("cls", ""), {}))
+    d.update(spec)
+    return cm.canon(d)
+
+
 def site_value_key(s: dict, pool: Pool) -> tuple:
-    """What a call site computes, by value (used for the sharing oracle)."""
+    """What a call site computes, by value (used for the sharing oracle);
+    constructor / keyword defaults are filled in so that equal objects compare equal."""
     if s["target"] in ("fn_sin2", "fn_scale"):
         obj: Any = s["target"]
     elif "temp" in s:
-        obj = cm.canon(s["temp"])
+        obj = _norm_spec(s["temp"])
     else:
-        obj = cm.canon(pool.desc[s["inst"]])
-    return (s["target"], obj, cm.canon(s.get("kw") or {}), bool(s.get("halve")), bool(s.get("use_param")))
+        obj = _norm_spec(pool.desc[s["inst"]])
+    kw = dict(_KW_DEFAULTS.get(s["target"], {}))
+    kw.update(s.get("kw") or {})
+    return (s["target"], obj, cm.canon(kw), bool(s.get("halve")), bool(s.get("use_param")))
 
 
 def _without_function_plugins():
